@@ -321,8 +321,12 @@ func runC12(c *engine.Ctx) {
 			i := bytes.Index(e, []byte("\r\n")) + 2 + 10
 			return append(append([]byte{}, e[:i]...), e[i+2:]...), len(p)
 		},
-		"decoded-length+1": func(p, e []byte) ([]byte, int) { return e, len(p) + 1 },
-		"decoded-length-1": func(p, e []byte) ([]byte, int) { return e, len(p) - 1 },
+		"decoded-length+1":  func(p, e []byte) ([]byte, int) { return e, len(p) + 1 },
+		"decoded-length=0":  func(p, e []byte) ([]byte, int) { return e, 0 },
+		"decoded-length=1":  func(p, e []byte) ([]byte, int) { return e, 1 },
+		"decoded-length*2":  func(p, e []byte) ([]byte, int) { return e, 2 * len(p) },
+		"decoded-length=10": func(p, e []byte) ([]byte, int) { return e, 10 }, // exactly the first chunk
+		"decoded-length-1":  func(p, e []byte) ([]byte, int) { return e, len(p) - 1 },
 		"chunk-size-larger-than-data": func(p, e []byte) ([]byte, int) {
 			return drv.EncodeChunked(p, []int{len(p)})[:0], len(p)
 		},
